@@ -5,4 +5,7 @@ import MakoModel.Props.C15
 #print axioms MakoModel.C15.after_rewrite_current
 #print axioms MakoModel.C15.concurrent_writers_safe
 #print axioms MakoModel.C15.concurrent_loader_sees_complete
+#print axioms MakoModel.C15.concurrent_constructs_safe
+#print axioms MakoModel.C15.concurrent_constructs_converge
+#print axioms MakoModel.C15.concurrent_constructs_need_stable_source
 #print axioms MakoModel.C15.verify_directory_bounded
